@@ -323,6 +323,7 @@ func checkC13(p *Prog, r *Report) {
 	c04LoadYear(p, r, "C13.year-lookup")
 	lostWrites(p, r, "C13.lost-writes")
 	c13MeasurementIdFilter(p, r)
+	c13YamlWriter(p, r)
 }
 
 func short(k string) string { return strings.TrimPrefix(k, "hermes.") }
@@ -832,8 +833,10 @@ func c13Headers(p *Prog, r *Report, rule string) {
 // readers treat as optional (parsed with the tolerant parser, value kept only
 // when it parses) the lookup must therefore be presence-checked: the fixed-
 // width siblings leave such values unset when the line has no such field.
-func c13OptionalColumns(p *Prog, r *Report) {
-	r.Rule("C13.optional-columns", "optional CSV columns: every value handed to the tolerant number parser in the CSV soil and measurement readers is taken from a column whose presence in the header was tested (comma-ok lookup of the header map, the absent case leaving the value unset) — never from header[name] of an absent name, which is column 0", 12)
+func c13OptionalColumns(p *Prog, r *Report) { c13OptionalColumnsAs(p, r, "C13.optional-columns") }
+
+func c13OptionalColumnsAs(p *Prog, r *Report, rule string) {
+	r.Rule(rule, "optional CSV columns: every value handed to the tolerant number parser in the CSV soil and measurement readers is taken from a column whose presence in the header was tested (comma-ok lookup of the header map, the absent case leaving the value unset) — never from header[name] of an absent name, which is column 0", 12)
 	for _, key := range []string{"hermes.LoadSoilCSV", "hermes.ExtractMeasuredDataCSV"} {
 		fi := p.Funcs[key]
 		if fi == nil {
@@ -1405,4 +1408,53 @@ func c13MeasurementIdFilter(p *Prog, r *Report) {
 		})
 		r.Ob("id-filter:"+short(key), pos, nInc > 0 && okAll, fmt.Sprintf("%d site(s) count a record; each lies under an equality comparison with the requested identifier %s: %v", nInc, want.Name(), nInc > 0 && okAll))
 	}
+}
+
+// ---------------------------------------------------------------- the converter writes numbers as the encoder renders them
+
+// c13YamlWriter: the converter turns a classic crop file into YAML through a reflective writer that hands every scalar
+// to the YAML encoder.  The encoder renders a float64 with the shortest text that parses back to the same number.
+// Overwriting that text (a fixed number of decimals, a "nicer" notation) rounds what the YAML reader gets, and the
+// converted file no longer carries the classic file's numbers.  Demanded: no routine of the package assigns the Value
+// text of a YAML node; the writer only sets comments, kinds and children.
+func c13YamlWriter(p *Prog, r *Report) {
+	r.Rule("C13.yaml-writer", "the YAML writer behind the converter leaves scalar text to the encoder: no assignment to the Value of a yaml node anywhere in the in-scope packages (a re-formatted number is a rounded number)", 1)
+	n, nodes := 0, 0
+	var keys []string
+	for k := range p.Funcs {
+		keys = append(keys, k)
+	}
+	sort.Strings(keys)
+	for _, k := range keys {
+		fi := p.Funcs[k]
+		if fi.Decl.Body == nil {
+			continue
+		}
+		info := fi.Pkg.TypesInfo
+		ast.Inspect(fi.Decl.Body, func(m ast.Node) bool {
+			if c, ok := m.(*ast.CallExpr); ok {
+				if se, ok := c.Fun.(*ast.SelectorExpr); ok && se.Sel.Name == "Encode" {
+					if isNamed(info.TypeOf(se.X), "yaml.v3", "Node") {
+						nodes++
+					}
+				}
+			}
+			as, ok := m.(*ast.AssignStmt)
+			if !ok {
+				return true
+			}
+			for _, l := range as.Lhs {
+				se, ok := l.(*ast.SelectorExpr)
+				if !ok || se.Sel.Name != "Value" {
+					continue
+				}
+				if isNamed(info.TypeOf(se.X), "yaml.v3", "Node") {
+					n++
+					r.Ob("yaml-writer:value-text:"+short(fi.Key), p.Pos(as.Pos()), false, fmt.Sprintf("%s overwrites the text of a YAML scalar (%s): the number written is no longer the one the encoder rendered", short(fi.Key), types.ExprString(as.Rhs[0])))
+				}
+			}
+			return true
+		})
+	}
+	r.Ob("yaml-writer:scanned", "-", n == 0 && nodes > 0, fmt.Sprintf("%d call(s) hand a value to the YAML encoder, %d assignment(s) to a node's Value text", nodes, n))
 }
